@@ -96,6 +96,12 @@ func (s *Server) Apply(t watch.EventType, o Obj) Obj {
 	s.mu.Lock()
 	defer s.mu.Unlock()
 	o.RV = strconv.Itoa(s.bump())
+	// one UID per incarnation, as an API server hands them out
+	if cur, ok := s.objs[o.Key()]; ok {
+		o.UID = cur.UID
+	} else {
+		o.UID = "u" + o.RV
+	}
 	switch t {
 	case watch.Deleted:
 		delete(s.objs, o.Key())
